@@ -952,6 +952,16 @@ func (s *Service) runPipeline(ctx context.Context, rp *runnablePipeline) error {
 		// meantime), a blind Delete(id) would remove that OTHER run instead
 		// of just undoing this one's own publication.
 		s.deleteRunningPipelineIfCurrent(rp.pipeline.ID, rp)
+		// The nodes were already started above and, with the publication
+		// rolled back and no cleanup goroutine registered yet, nothing else
+		// can reach them anymore: stop them here, otherwise they keep
+		// running (and holding their connectors) behind a Start that
+		// reported a failure. The status may have been changed in memory by
+		// the failed write, record that the run did not survive so the
+		// pipeline can be started again.
+		rp.t.Kill(err)
+		nodesWg.Wait()
+		_ = s.pipelines.UpdateStatus(context.Background(), rp.pipeline.ID, pipeline.StatusDegraded, fmt.Sprintf("%+v", err))
 		return err
 	}
 
